@@ -23,7 +23,7 @@ from . import topo as T
 from . import lattice as L
 
 PID = 'C02'
-INVS = ['CountFormula', 'SegJoint', 'JunctionCount']
+INVS = ['CountFormula', 'SegJoint', 'JunctionCount', 'ConnectedOnlyIfJoined']
 
 
 def check_record(args):
@@ -47,6 +47,10 @@ def check_record(args):
         if len(m.pulses) != N:
             out['mism'].append(dict(what='pulse-count'))
             return out
+        # the exact-kernel rule (which pulse pairs get the exact kernel) as the specification derives it
+        ex = np.logical_not(np.array(m.pulses.matrix_geo_unconnected(), dtype=bool))
+        if not np.array_equal(ex, np.array(rec['exact'], dtype=bool).reshape(N, N)):
+            out['mism'].append(dict(what='exact-kernel-flags', long_tapered=long))
         m.compute_impedance_matrix()
         Z = np.array(m.Z)
         E, scale = geo.surrogate_matrix(2 * math.pi / lam, with_scale=True)
